@@ -65,19 +65,24 @@ func main() {
 			o.Self = rb
 			o.RaceLog = "RACELOG"
 		}
+		tmpWork := ""
 		if o.WorkDir == "" {
 			d, err := os.MkdirTemp("", "vhrun")
 			if err != nil {
 				fmt.Println("INCONCLUSIVE:", err)
 				os.Exit(2)
 			}
-			defer os.RemoveAll(d)
+			tmpWork = d
 			o.WorkDir = d
 		}
 		if o.RaceLog == "RACELOG" {
 			o.RaceLog = o.WorkDir + "/race"
 		}
-		os.Exit(core.RunParent(reg, o))
+		rc := core.RunParent(reg, o)
+		if tmpWork != "" {
+			os.RemoveAll(tmpWork)
+		}
+		os.Exit(rc)
 	case "replay":
 		if len(os.Args) < 3 {
 			fmt.Println("usage: vh replay <file>")
